@@ -29,7 +29,9 @@ reg('C13',
     'Trusted: the rebuilt molecule (fresh add_atom/add_bond in the same insertion order) as reference for derived values; this decides coherence, '
     'not correctness of the derived values themselves (C01-C06 do that). Bounds: quick depth 3 (<=4 atoms, <=1 charged/radical atom) with default '
     'reads plus depth 2 with <=1 read deviation (none / exactly one of 9 values); thorough depth 4 (<=4 atoms) plus depth 3 with <=1 deviation on 11 seeds '
-    'and <=2 deviations on 5 seeds. Seeds include a coordinate-bond molecule (CN~Cu). Long random sequences of the property text are replaced by this '
+    'and <=2 deviations on 5 seeds. Seeds include a coordinate-bond molecule (CN~Cu). Medium seeds (5 in quick, 15 in thorough: Kekule benzene, amino acid with a stereocentre, '
+    'E/Z diene, norbornane, zwitterion, spiro ketal, quinone, allene, isonitrile, Grignard, bicyclopropyl, pyrrole Kekule form, fused cyclopropane, salt): every enabled event at '
+    'every position x read patterns (depth 1), and every pair of events (thorough, default reads). Long random sequences of the property text are replaced by this '
     'bounded exhaustive space.',
     'explicit-state BFS with canonical state hashing and deviation-bounded environment choices, real implementation vs rebuilt reference',
     'DESIGN.md s5 C13')
@@ -75,9 +77,13 @@ reg('C04',
     'of <=4 bonds of order 1-3 to {H,C,N,O,F,S,Cl} (1.64 M stars; thorough adds all 118 elements with <=3 bonds), built through the public API. Every '
     'atom must carry the hydrogen count (or "no valence state") that an independent re-derivation from the raw element tables gives, check_valence() '
     'must be exactly the atoms without a state, the hand-written textbook table must agree inside its domain, and brutto/int/float/is_radical must '
-    'equal plain sums over atoms. Whole molecules D(<=5,2) (thorough <=6) and the corpus (per-atom H vs RDKit, aromatic carbons as parsed and all atoms after kekule()) extend this.',
+    'equal plain sums over atoms. Whole molecules D(<=5,2) (thorough <=6) and the corpus (per-atom H vs RDKit, aromatic carbons as parsed and all atoms after kekule()) extend this. '
+    'Every state the library reports for a main-group centre is also judged by a ladder model that never reads the tables (valence ladders by effective group = group - charge, '
+    'second period without expansion): bond sum + hydrogens must be the lowest ladder state; every environment row of the exception tables of 15 main-group elements (up to 7 '
+    'neighbours) is instantiated as a star for this. check_implicit(n, h) must be true exactly for the hydrogen counts for which the raw tables hold a matching state.',
     'Trusted: vf/oracle/valence.py ((a) follows the docstring semantics of _common_valences/_valences_exceptions and never calls the compiled rules; '
-    '(b) hand table, uncontroversial states only - a mutated table row outside (b) and outside the corpus is seen only through RDKit on the corpus). '
+    '(b) hand table, uncontroversial states only; (c) ladder model with 10 hand-reviewed exceptions (elemental states, H3PO2) - a mutated table row of a metal is seen only '
+    'through (a)-consistency and RDKit on the corpus). '
     'Sums are checked only for molecules in which every atom has a valence state (formula undefined otherwise).',
     'complete enumeration of the finite centre-environment space on the real implementation vs reference valence models',
     'DESIGN.md s5 C04')
@@ -100,7 +106,9 @@ reg('C20',
     'permutations on the RDKit side; both bridge directions and both round trips are run for each. Text scope: a ring/double-bond stereo family '
     '(every label combination) and the corpus (stride 8; thorough all) as written and in Kekule form under 9 GEN renumberings, including chython '
     'molecules that came from a renumbered RDKit molecule and remapped molecules with a 2D layout. Judges: RDKit canonical isomeric SMILES or mutual '
-    'chirality-aware substructure match on one side, chython canonical SMILES on the other, plus per-atom element/isotope/charge/radical/H/map number/xy and bond orders under the index map.',
+    'chirality-aware substructure match on one side, chython canonical SMILES on the other, plus per-atom element/isotope/charge/radical/H/map number/xy and bond orders under the index map. '
+    'Extras: stereocentres with an isotopic hydrogen ATOM at every position of the neighbour list (24 orders x both marks x middle/first atom x GEN numberings) and donor->metal '
+    'coordinate bonds (10 donor elements x 5 metal fragments x donor-first/metal-first x 7 numberings: order 8 on the chython side, donor->metal direction and hydrogen counts on the RDKit side, both round trips).',
     'Trusted: RDKit as the independent judge. Out of domain (counted, executed, not judged): RDKit-rejected inputs, inputs on which the two valence '
     'models disagree before conversion, non-carbon stereocentres, RDKit-aromatic rings outside chython aromaticity (compared through RDKit Kekule form), '
     'chython canonical strings that differ while RDKit proves identity (C01 exclusion i).',
@@ -152,7 +160,7 @@ reg('C09',
     'DESIGN.md s3.5, s5 C09')
 
 reg('C08',
-    'Query atoms: 10 element specs (symbols, atomic numbers, lists, any-atom, any-metal) x (each of 27 primitives and every pair of primitives of '
+    'Query atoms: 15 element specs (symbols, atomic numbers, lists incl. two-letter symbols that contain other symbols, any-atom, any-metal) x (each of 27 primitives and every pair of primitives of '
     'different kinds: D, h, r/!R, a, x, z incl. value lists) plus charges and isotopes are parsed from SMARTS text and compared, as qatom == atom and '
     'through one-atom searches, against every atom of a molecule scope (D(<=5,1), rings 3-7, fused/spiro/biphenyl, charged, isotopic, radical, '
     'organometallic, corpus stride). Query bonds: 21 bond primitives (orders, order lists, negations, ring/non-ring marks) against every bond. The '
@@ -190,7 +198,8 @@ reg('C02',
     'back and compared with the original UNDER THE WRITTEN ATOM ORDER (parse order or :map numbers): element, isotope, charge, radical, hydrogens, bond '
     'orders, and the sign of every tetrahedral / allene / cis-trans label relative to ascending-numbered neighbours; RDKit must read the text as the '
     'same stereoisomer. Injectivity: over D(<=5,2) (thorough <=6,2) the map canonical string -> brute-force canonical code of the labelled graph is a '
-    'function, and stereoisomers that RDKit distinguishes never share a string.',
+    'function, and stereoisomers that RDKit distinguishes never share a string. An interdependent family (pseudo-asymmetric centres, centres/double bonds that are stereogenic only '
+    'through other labels; 34 label combinations) is included so that a label can only survive through the iterative perception of the reader.',
     'Trusted: RDKit as the independent reader; vf/oracle/iso.py canonical codes. Signs are compared through the library sign translation on both sides '
     '(its permutation consistency is C12). Aromatic inputs are normalised (kekule+thiele) before writing. Known finding: the writer loses/inverts a '
     'cis/trans mark when a stereo double bond of a conjugated diene is written as a ring-closure bond (keyed by that traversal shape).',
@@ -205,7 +214,10 @@ reg('C12',
     'order writer (choice-point explorer; unbounded <=7 atoms) and RDKit spellings over roots x renumberings must denote, for RDKit, the same stereoisomer '
     'before and after reading. All 2^s label combinations of 12 templates x all pairs: == iff RDKit identity; labels survive exactly on stereogenic '
     'centres (C(a)(b)(c)(d) and abC=Ccd over substituent alphabets, ring double bonds of every ring size 3..12); own wedge map -> add_wedge restores '
-    'every sign on RDKit 2D coordinates and RDKit reads the written MolBlock as the same stereoisomer.',
+    'every sign on RDKit 2D coordinates and RDKit reads the written MolBlock as the same stereoisomer. Every wedge that can be drawn (every heavy substituent x up/down): at 10 '
+    'allenes the eight wedges must fall into the two classes given by mark x side of the substituent x terminal (geometric oracle), at tetrahedral centres the configuration must be '
+    'the one RDKit derives from the same drawing. Ring-axis stereo (alkylidene-cycloalkanes, ring=ring double bonds, ring-attached allenes; not perceived by RDKit): every own '
+    'spelling must be read back with the same number of labels (stereogenicity independent of numbering).',
     'Trusted: RDKit as independent toolkit; permutation parity (vf/oracle/parity.py). Non-carbon stereocentres are out of domain. Molecules with up to 8 '
     'stereo elements are covered through the corpus and templates with up to 4 labels only. The ring-closure-diene writer defect is a known finding shared with C01/C02.',
     'complete enumeration of neighbour permutations and bounded exhaustive enumeration of spellings (choice-point exploration) vs parity and RDKit',
